@@ -61,6 +61,82 @@ def replay_cases(cases, wd):
     return total, aborted, shards
 
 
+TRACE_JAVA = ["java", "-Xss1g", "-Xmx4g", "-Dtlc2.tool.queue.IStateQueue=StateDeque", "-cp", vlib.JAR, "tlc2.TLC", "-workers", "1", "-cleanup", "-noGenerateSpecTE"]
+
+
+def validate_trace(trace_path, tag):
+    """TLC on spec/ResolverTrace.tla with TRACE=<file>. Returns (accepted, detail)."""
+    meta = os.path.join(vlib.workdir(PID, "tlc_trace_" + tag), "meta")
+    env = dict(os.environ, TRACE=trace_path)
+    p = subprocess.run(TRACE_JAVA + ["-metadir", meta, "-config", os.path.join(vlib.SPEC, "ResolverTrace.cfg"), os.path.join(vlib.SPEC, "ResolverTrace.tla")],
+                       cwd=vlib.SPEC, env=env, stdout=subprocess.PIPE, stderr=subprocess.STDOUT, text=True, timeout=1800)
+    out = p.stdout
+    if "Model checking completed. No error has been found." in out:
+        return True, ""
+    import re
+    m = re.search(r'"TRACE-REJECTED at line",\s*(\d+),\s*(\[[^\]]*\])', out)
+    if m:
+        return False, "rejected at line %s: %s" % (m.group(1), re.sub(r"\s+", " ", m.group(2)))
+    m = re.search(r"Invariant (\S+) is violated", out)
+    if m:
+        return False, "invariant %s violated" % m.group(1)
+    raise vlib.ToolError("trace validation did not complete:\n" + out[-1500:])
+
+
+def engine_b(v, tier, seed):
+    """free-running threads, recorded events validated against the specification"""
+    q = tier == "quick"
+    wd = vlib.workdir(PID, "trace")
+    runs = 150 if q else 1500
+    batches = 4 if q else 12
+    stats = {"runs": 0, "events": 0, "blocks": 0, "cached_runs": 0, "cyclic_runs": 0, "batches": batches, "event_kinds": {}}
+
+    def one(b):
+        tp, rp = os.path.join(wd, "trace_%d.ndjson" % b), os.path.join(wd, "report_%d.json" % b)
+        p = subprocess.run([vlib.BIN, "restrace", tp, rp, "--seed", str(seed * 1000 + b), "--runs", str(runs), "--threads", "4", "--keys", "6", "--loads", "8"],
+                           stdout=subprocess.PIPE, stderr=subprocess.PIPE, text=True, timeout=1200)
+        if p.returncode != 0:
+            return b, tp, None, "recorder died (exit %s): %s" % (p.returncode, p.stderr[-600:])
+        return b, tp, json.load(open(rp)), None
+    with cf.ThreadPoolExecutor(max_workers=4) as ex:
+        recs = list(ex.map(one, range(batches)))
+    with cf.ThreadPoolExecutor(max_workers=4) as ex:
+        vals = list(ex.map(lambda r: (r[0], validate_trace(r[1], str(r[0])) if r[2] else (False, r[3])), recs))
+    vd = dict(vals)
+    for b, tp, rep, err in recs:
+        ok, detail = vd[b]
+        if rep:
+            for k in ("runs", "events", "blocks", "cached_runs", "cyclic_runs"):
+                stats[k] += rep[k]
+            if rep["deadlocks"]:
+                ok, detail = False, "a cache wait did not end (%d runs)" % rep["deadlocks"]
+            for line in open(tp):
+                e = json.loads(line)["ev"]
+                stats["event_kinds"][e] = stats["event_kinds"].get(e, 0) + 1
+        if not ok:
+            import re
+            m = re.search(r'ev \|-> "(\w+)"', detail)
+            cls = "trace:rejected:" + m.group(1) if m else "trace:" + detail.split(":")[0].split(" violated")[0].replace(" ", "-")
+            v.failure(cls, {"class": cls, "trace": tp, "detail": detail, "seed": seed * 1000 + b})
+    # vacuity and binding: every kind of event occurred, and a corrupted trace is rejected
+    need = ["pushed", "recursive", "popped", "c_skip", "c_mark", "c_hit_ok", "c_hit_err", "c_block", "c_wake_ok", "c_publish_ok", "c_publish_err", "end"]
+    missing = [k for k in need if stats["event_kinds"].get(k, 0) == 0]
+    if missing and not v.violations:
+        raise vlib.ToolError("trace validation is vacuous: no event of kind %s recorded" % missing)
+    b0 = recs[0]
+    if b0[2] and vd[0][0]:
+        lines = open(b0[1]).read().splitlines()
+        idx = next(i for i, ln in enumerate(lines) if '"c_publish_ok"' in ln)
+        lines[idx] = lines[idx].replace("c_publish_ok", "c_publish_err")
+        cp = os.path.join(wd, "corrupted.ndjson")
+        open(cp, "w").write("\n".join(lines) + "\n")
+        okc, _ = validate_trace(cp, "corrupt")
+        if okc:
+            raise vlib.ToolError("binding self-test failed: a trace with a corrupted event was accepted")
+        stats["corrupted_trace_rejected"] = True
+    return stats
+
+
 def run(tier, seed):
     t0 = time.time()
     v = vlib.Verdict(PID)
@@ -118,6 +194,7 @@ def run(tier, seed):
     elif "end=done" not in probe:
         v.violations.append(("synccache-probe:" + probe, os.path.join(v.rdir, "probe.txt")))
         open(os.path.join(v.rdir, "probe.txt"), "w").write(pr.stdout + pr.stderr)
+    tstats = engine_b(v, tier, seed)
     rc = v.finish()
     vlib.write_evidence(PID, tier, seed, "model_checking", {
         "states": states, "transitions": trans,
@@ -135,8 +212,13 @@ def run(tier, seed):
         "liveness": "Termination checked under weak fairness (Resolver_live.cfg, no state constraint, no VIEW)",
         "known_findings_hit": sorted(v.known_hit), "harness_counters": rep["counters"],
         "real_synccache_probe": probe,
+        "trace_validation": dict(tstats, rule="Engine B: free-running threads (2-4 threads, up to 8 loads each, 6 keys, random dependency chains and cycles, shared / per-thread resolver, "
+                                 "cache on (acyclic graphs) / off), one event per critical section recorded inside the lock that orders it, runs concatenated; TLC accepts a trace iff every "
+                                 "event is the corresponding Resolver.tla action enabled for the recorded thread and key, the recorded answers equal the model's results, and "
+                                 "TypeOK, SequentialAnswers, NoPanic, InProcHasOwner hold in every state; a trace with one corrupted event must be rejected"),
     }, ["bounded: 2-3 threads, 1-3 loads each, 3 keys, dependency graphs with <= 1 eager dependency per key are replayed (fan-out graphs are model-checked only)",
-        "the instrumented cache (harness/src/sched.rs VCache) follows the protocol of globalcache SyncCache::get; the real SyncCache is exercised by the stress part",
+        "the instrumented caches (harness/src/sched.rs VCache for schedule replay, TCache for trace recording) follow the protocol of globalcache SyncCache::get; the real SyncCache is exercised by the probe",
+        "trace recording excludes cache-on runs over cyclic dependency graphs (threads may wait for each other there: the recorded finding, decided by schedule replay)",
         "hooks: cfg(pdf_rs_pdf_verif) yield/log points in StorageResolver::get (commit 5526931 in /repo)"],
         time.time() - t0, len(v.violations))
     return rc
@@ -144,6 +226,20 @@ def run(tier, seed):
 
 def replay(path, seed):
     rec = json.load(open(path))
+    if rec.get("trace"):
+        # a recorded trace: record again with the same seed (the interleaving is not reproducible, the workload is) and validate both
+        v = vlib.Verdict(PID)
+        wd = vlib.workdir(PID, "replay_trace")
+        vlib.build_harness()
+        tp = os.path.join(wd, "trace.ndjson")
+        subprocess.run([vlib.BIN, "restrace", tp, os.path.join(wd, "report.json"), "--seed", str(rec.get("seed", 1)), "--runs", "150", "--threads", "4", "--keys", "6", "--loads", "8"], check=True)
+        for name, t in (("recorded", rec["trace"]), ("fresh", tp)):
+            if os.path.exists(t):
+                ok, detail = validate_trace(t, "replay_" + name)
+                vlib.log("%s trace %s: %s" % (name, t, "accepted" if ok else detail))
+                if not ok:
+                    v.failure(rec["class"], rec)
+        return v.finish()
     if not rec.get("case"):
         vlib.log(open(path).read()[:4000])
         return 1
